@@ -497,7 +497,7 @@ class reader( object ):
             cur			= self.advance()
             adv			= cur + ( lookahead or 0.0 )
             while True:
-                if ts > adv:
+                if ts is not None and ts > adv:
                     cur		= self.advance()
                     adv		= cur + ( lookahead or 0.0 )
                     if ts > adv:
@@ -505,7 +505,8 @@ class reader( object ):
                         yield (f,n,cur),(ts,None)
                         continue
 
-                # OK, this record's ts is <= our advancing historical time incl. lookahead
+                # OK, this record's ts is <= our advancing historical time incl. lookahead (or it is
+                # None,None: no record could be parsed from the line)
                 yield (f,n,cur),(ts,js)
 
                 # Get another; after this stanza, we must have a (ts,js).  If this fails, we'll
@@ -517,6 +518,12 @@ class reader( object ):
                     n,(ts,sn,js) = parse_record( fd, n=n, encoding=encoding )
                 except StopIteration:
                     break
+                except Exception as exc:
+                    # The line (already consumed) has no parsable timestamp/serial, or is not in the
+                    # expected encoding.  Report that no record could be parsed; the caller may power thru.
+                    n	       += 1
+                    log.warning( "%s Playback skipping %s, line %d: %s", self, self.name+f, n, exc )
+                    ts,js	= None,None
 
                 # a valid (ts,js) has been parsed; loop to advancing historical time, and return it
                 # when appropriate.
